@@ -1,4 +1,6 @@
 //! C01: an event is emitted iff the effective filter accepts the fully built event.
+#[cfg(not(kani))]
+use crate::kani;
 use crate::oracles::*;
 use emit::{Emitter, Event, Extent, Filter, Path, Props, Template};
 
@@ -24,9 +26,9 @@ fn expect_extent(own: &Option<Extent>, clock: Option<emit::Timestamp>) -> (Optio
 /// emit_core::emit: the filter is consulted exactly once and is shown the event exactly as the emitter would see
 /// it (own property wins over the ambient one under the same key, ambient-only key visible, own extent else the
 /// clock's reading); the emitter receives exactly that event, once, iff the filter accepted.
-#[kani::proof]
-#[kani::unwind(6)]
-fn c01_emit_core_contract() {
+#[cfg_attr(kani, kani::proof)]
+#[cfg_attr(kani, kani::unwind(6))]
+pub(crate) fn c01_emit_core_contract() {
     let v_own: u64 = kani::any();
     let v_amb_k: u64 = kani::any();
     let v_amb: u64 = kani::any();
@@ -57,9 +59,9 @@ fn c01_emit_core_contract() {
 
 /// Runtime::emit and the Emitter impl of Runtime are the same pipeline over the runtime's components;
 /// emitting straight to `rt.emitter()` bypasses filter, ambient properties and clock.
-#[kani::proof]
-#[kani::unwind(6)]
-fn c01_runtime_emit_contract() {
+#[cfg_attr(kani, kani::proof)]
+#[cfg_attr(kani, kani::unwind(6))]
+pub(crate) fn c01_runtime_emit_contract() {
     let v_own: u64 = kani::any();
     let v_amb: u64 = kani::any();
     let answer: bool = kani::any();
@@ -94,9 +96,9 @@ fn c01_runtime_emit_contract() {
 }
 
 /// The macro entry point: with a call-site `when` filter the runtime's filter is NOT consulted, without one it is.
-#[kani::proof]
-#[kani::unwind(6)]
-fn c01_private_emit_when_contract() {
+#[cfg_attr(kani, kani::proof)]
+#[cfg_attr(kani, kani::unwind(6))]
+pub(crate) fn c01_private_emit_when_contract() {
     let v_own: u64 = kani::any();
     let v_base: u64 = kani::any();
     let v_amb: u64 = kani::any();
